@@ -9,6 +9,8 @@
 import LiteFSVerif.Proofs.Locks
 import LiteFSVerif.Props.C03
 import LiteFSVerif.Gen.Facts
+import LiteFSVerif.Gen.Skel
+import LiteFSVerif.Model.ExpectedSkel
 
 namespace LiteFSVerif.C11
 open LiteFSVerif LiteFSVerif.Locks LiteFSVerif.RWMutex
@@ -140,5 +142,12 @@ theorem C11_table_inv_init : TInv {} := by
     have : ({} : Table).mu l = Mutex.init 0 := by
       unfold Table.mu; cases l <;> rfl
     rw [this]; rfl
+
+/-- further regenerated control skeletons (see Model/ExpectedSkel.lean): DB_Checkpoint, DB_AcquireWriteLock, DB_TryAcquireWriteLock -/
+theorem C11_source_skeletons :
+    Gen.Skel.DB_Checkpoint = Expected.Skel.DB_Checkpoint ∧
+    Gen.Skel.DB_AcquireWriteLock = Expected.Skel.DB_AcquireWriteLock ∧
+    Gen.Skel.DB_TryAcquireWriteLock = Expected.Skel.DB_TryAcquireWriteLock :=
+  ⟨rfl, rfl, rfl⟩
 
 end LiteFSVerif.C11
